@@ -150,7 +150,8 @@ class Stack:
                 self._prequeue.remove(item)
         elif self._prequeue:
             ahead = [t for (t, cid) in self._prequeue if cid <= can_id]
-            if ahead and max(ahead) > sim.now:
+            if ahead and max(ahead) >= sim.now:
+                # (also when it is released at this very instant: written later means on the bus later)
                 sk.exact_sleep(max(ahead) - sim.now + 1e-6)     # strictly behind it
         self.sent.append((self.world.sim.now, f))
         self.world.bus.transmit(self, f)
